@@ -160,6 +160,8 @@ def terms_for(c, r):
     if "R" in r:
         out.append(("residual", resid_term(c["T"], r["R"], TOL)))
         out.append(("recover", rec_term(c["T"], r["rec"])))
+    if "rec_back" in r:
+        out.append(("recover-the-first-time-after-a-later-one", rec_term(c["T"], r["rec_back"])))
     if "R_late" in r:
         c3 = dict(c, panels=c["panels"] + [c["late"]["panel"]], T=c["late"]["T"])
         for label, term in terms_for(c3, {"R": r["R_late"], "rec": r["rec_late"]}):
